@@ -1306,3 +1306,84 @@ func planC10(tier string, seed int64) (*Plan, error) {
 }
 
 func init() { Plans["C10"] = planC10 }
+
+// ---- C15 ----
+
+func planC15(tier string, seed int64) (*Plan, error) {
+	p := &Plan{MustReach: []string{"done", "two-headings", "three-headings"}}
+	thorough := tier == "thorough"
+	core, gfm, all := cfg("core", "autoid", ""), cfg("gfm", "autoid", "xhtml"), cfg(allExt, "autoid", "")
+	kinds := "asqlec2u"
+	var jobs []interp.Job
+	r := rand.New(rand.NewSource(seed))
+	for i := 0; i < len(kinds); i++ {
+		for j := 0; j < len(kinds); j++ {
+			if !thorough && (r.Intn(6) != 0 || i == j) && !(i == j && i%3 == int(seed)%3) {
+				continue
+			}
+			c := []string{core, gfm, all}[(i+j)%3]
+			jobs = append(jobs, job("H_c15_ids", "cfg", c, "shape", string(kinds[i])+string(kinds[j]), "tn", 1))
+		}
+	}
+	a9 := "aA-_1 \xc3\xa9!"
+	for _, sh := range []string{"aaa", "asq", "sle", "c2u"} {
+		jobs = append(jobs, job("H_c15_ids", "cfg", core, "shape", sh, "tn", 1, "alpha", a9))
+	}
+	// suffix collisions: 'a','a','a-1' and friends; the literal "heading" fallback
+	for _, sh := range []string{"aaa", "asa", "qla"} {
+		jobs = append(jobs, job("H_c15_ids", "cfg", core, "shape", sh, "tns", "113", "alpha", "a-1"))
+		jobs = append(jobs, job("H_c15_ids", "cfg", core, "shape", sh, "tns", "311", "alpha", "a-1"))
+	}
+	jobs = append(jobs, job("H_c15_ids", "cfg", core, "shape", "aaa", "tns", "133", "alpha", "a-1"))
+	jobs = append(jobs, job("H_c15_ids", "cfg", all, "shape", "aaaa", "tns", "1113", "alpha", "a-1"))
+	for _, l := range []string{",,heading", "heading,,", ",,heading-1", ",heading-1,", "Heading 1,,"} {
+		jobs = append(jobs, job("H_c15_ids", "cfg", core, "shape", "asa", "tn", 1, "alpha", "!h?-1", "lits", l))
+	}
+	if thorough {
+		jobs = append(jobs, job("H_c15_ids", "cfg", core, "shape", "aaaa", "tns", "1133", "alpha", "a-1"))
+		jobs = append(jobs, job("H_c15_ids", "cfg", core, "shape", "asqe", "tn", 2, "alpha", "aA- "))
+		jobs = append(jobs, job("H_c15_ids", "cfg", core, "shape", "aa", "tn", 2))
+	}
+	// two headings with 2-byte texts over an alphabet, every pair of kinds on the diagonal
+	for i := 0; i < len(kinds); i += 2 {
+		jobs = append(jobs, job("H_c15_ids", "cfg", core, "shape", string(kinds[i])+string(kinds[(i+3)%len(kinds)]), "tn", 2, "alpha", "aA-1 \xc3"))
+	}
+	// symbolic history document
+	jobs = append(jobs, job("H_c15_ids", "cfg", core, "shape", "as", "tn", 1, "alpha", a9, "hn", 1), job("H_c15_ids", "cfg", core, "shape", "aa", "tns", "13", "alpha", "a-1", "hn", 2, "halpha", "a-1#\n"))
+	// free-form documents
+	for n := 0; n <= 2; n++ {
+		jobs = append(jobs, job("H_c15_ids", "cfg", all, "n", n))
+	}
+	la := 5
+	if thorough {
+		la = 7
+	}
+	jobs = append(jobs, job("H_c15_ids", "cfg", core, "n", la, "alpha", "# a\n="), job("H_c15_ids", "cfg", core, "n", la, "alpha", "#a\n-1"))
+	docs, err := LoadCorpus()
+	if err != nil {
+		return nil, err
+	}
+	var hd []Doc
+	for _, d := range docs {
+		if hasAny(d.Markdown, "#=") && !hasAny(d.Markdown, "{") {
+			hd = append(hd, d)
+		}
+	}
+	nwin := 60
+	if thorough {
+		nwin = 1500
+	}
+	jobs = append(jobs, windowJobs("H_c15_ids", hd, seed, nwin, 1, []string{core, all})...)
+	p.Jobs = jobs
+	p.Bounds = map[string]interface{}{
+		"T(headings)": "2 headings of every kind pair from {ATX, Setext =, Setext -, ATX in quote, ATX in list item, Setext in quote, ATX with closing #, level-2 ATX} (quick: a seeded sixth of the pairs and a third of the diagonal) with 1-byte fully symbolic texts; 3 headings with 1-byte texts over {a,A,-,_,1,space,C3,A9,!}; 2 headings with 2-byte texts over {a,A,-,1,space,C3}",
+		"collisions":  "texts of lengths (1,1,3), (3,1,1), (1,3,3), (1,1,1,3) over {a,-,1} (the 'a','a','a-1' family), two 1-byte texts over {!,h,?,-,1} next to the literal texts 'heading', 'heading-1', 'Heading 1' in every position (the fallback id)",
+		"history":     "every case is converted, then a state-rich document with the same heading texts and suffix-like headings, then converted again on the same instance: outputs must be equal; two cases with a symbolic history heading of 1 byte (256 values) and 2 bytes over {a,-,1,#,LF}",
+		"free-form":   fmt.Sprintf("S(2) all extensions; S(%d,{#,space,a,LF,=}) and S(%d,{#,a,LF,-,1}); %d seeded corpus windows over documents with headings", la, la, nwin),
+		"outside":     "explicit {#id} attribute syntax (the property excludes it); more than 4 headings",
+	}
+	p.Rule = "ids are read from the tokenised output; distinctness is asserted pairwise over all inputs of a path"
+	return p, nil
+}
+
+func init() { Plans["C15"] = planC15 }
